@@ -142,6 +142,11 @@ theorem pages_increasing (env : Env) (es : List Entry) (hid : es.Pairwise (fun a
 /-- non-vacuity, and the D13 input after the repair: `a A a` gives the two lines `A (1)`, `a (0, 2)` -/
 example : buildIndex envL [⟨[lv 97], 0⟩, ⟨[lv 65], 1⟩, ⟨[lv 97], 2⟩] = [⟨[lv 65], [1]⟩, ⟨[lv 97], [0, 2]⟩] := by decide
 
+/-- non-vacuity for look-alike keys: the same sort key with displays that are prefixes of one another (`g@G`, `g@GS`,
+    `g@G` again) are different key paths — two lines, the first with both of its occurrences -/
+example : buildIndex envL [⟨[⟨[103], [71], [71]⟩], 0⟩, ⟨[⟨[103], [71, 83], [71, 83]⟩], 1⟩, ⟨[⟨[103], [71], [71]⟩], 2⟩] =
+    [⟨[⟨[103], [71], [71]⟩], [0, 2]⟩, ⟨[⟨[103], [71, 83], [71, 83]⟩], [1]⟩] := by decide
+
 /-- non-vacuity with sub-levels: `a!b`, `a`, `a!b`, `a!c` -/
 example : buildIndex envL [⟨[lv 97, lv 98], 0⟩, ⟨[lv 97], 1⟩, ⟨[lv 97, lv 98], 2⟩, ⟨[lv 97, lv 99], 3⟩] =
     [⟨[lv 97], [1]⟩, ⟨[lv 97, lv 98], [0, 2]⟩, ⟨[lv 97, lv 99], [3]⟩] := by decide
